@@ -3,8 +3,10 @@ package cache
 // Read-only handles for the verification harness (scratch copy only; never in /repo).
 
 import (
+	"reflect"
 	"sort"
 	"sync"
+	"sync/atomic"
 	"time"
 )
 
@@ -49,9 +51,27 @@ func VerifMaxSize[M any](c Cache[M]) int64 {
 	return -1
 }
 
+// VerifMemoryCap reads MemoryCache.memoryCap whatever its representation in the tree under
+// test is (a plain int64 or an atomic wrapper with Get()).
 func VerifMemoryCap[M any](c Cache[M]) int64 {
-	if x, ok := c.(*MemoryCache[M]); ok {
-		return x.memoryCap
+	x, ok := c.(*MemoryCache[M])
+	if !ok {
+		return -1
+	}
+	f := reflect.ValueOf(x).Elem().FieldByName("memoryCap")
+	if !f.IsValid() {
+		return -1
+	}
+	if f.Kind() == reflect.Int64 {
+		return f.Int()
+	}
+	// atomics.Int64{val *atomic.Int64}
+	if f.Kind() == reflect.Struct && f.NumField() == 1 {
+		p := f.Field(0)
+		if p.Kind() == reflect.Pointer && !p.IsNil() {
+			ai := (*atomic.Int64)(p.UnsafePointer())
+			return ai.Load()
+		}
 	}
 	return -1
 }
